@@ -2,16 +2,19 @@
 # seed_recheck.sh <seed-id> <check-ids...> : apply a stored seeded change to /repo, run the checks, undo; records the result in meta.json
 SID=$1; shift
 D=/verif/seeded/$SID
-cd /repo || exit 2
-git diff --quiet || { echo "/repo not clean"; exit 2; }
+# works in a scratch worktree of /repo's HEAD (created on demand), never in /repo itself
+WT=/tmp/wt_recheck
+[ -d "$WT" ] || git -C /repo worktree add -q --detach "$WT" HEAD
+cd "$WT" || exit 2
+git checkout -q --detach $(git -C /repo rev-parse HEAD) 2>/dev/null; git checkout -q -- . 
 if ! git apply $D/patch.diff 2>/dev/null; then
   if ! patch -p1 --fuzz=3 -s < $D/patch.diff; then echo "$SID: patch does not apply to the current tree"; git checkout -- . ; find . -name '*.rej' -o -name '*.orig' | xargs -r rm -f; exit 3; fi
 fi
 find . -name '*.orig' | xargs -r rm -f
-demo=$(PYTHONPATH=/repo/src timeout 600 /venv/bin/python $D/demo.py >/dev/null 2>&1; echo $?)
+demo=$(PYTHONPATH=$WT/src timeout 600 /venv/bin/python $D/demo.py >/dev/null 2>&1; echo $?)
 res=""
 for pid in "$@"; do
-  out=$(cd /verif && ./check $pid --tier quick 2>&1 | grep -E "VIOLATION" | head -1)
+  out=$(cd /verif && AMISC_REPO=$WT ./check $pid --tier quick 2>&1 | grep -E "VIOLATION" | head -1)
   if [ -n "$out" ]; then res="$res $pid:caught"; else res="$res $pid:missed"; fi
 done
 git checkout -- . ; git status --short | head -2
